@@ -246,6 +246,73 @@ static void fill_buf(rng_t* r, const bufspec_t* b, void* p, size_t bytes) {
   }
 }
 
+// Two inputs of one call are normally independent draws. One call in eight makes the LAST input a function of the FIRST one
+// (same fill type and element count): a copy, the negation, the negacyclic adjoint (b[0] = a[0], b[N-i] = -a[i]), the complex
+// conjugate in the split / interleaved / 4-block layouts, the bitwise complement - exactly, or (odd kinds) with the lowest
+// mantissa / integer bits of a few elements changed. Relations such as b = conj(a) or carry = -digit are what norms, squarings
+// and cancelling carries produce in real use, and what no pair of independent generators ever does.
+int op_exec_no_relate;  // set by a caller whose comparison assumes independent operands (C07's norm-wise budgets)
+static void relate_inputs(const opplan_t* pl, void* const p[], zvec_t* z, uint64_t seed, uint64_t N) {
+  const uint64_t t = mix64(seed ^ 0x5eed5eedull);
+  if ((t & 7) != 0 || op_exec_no_relate) return;
+  int ia = -1, ib = -1;
+  for (int i = 0; i < pl->nb; i++)
+    if (pl->b[i].role == R_IN || pl->b[i].role == R_INOUT) {
+      if (ia < 0) ia = i;
+      else ib = i;
+    }
+  if (ia < 0 || ib < 0 || ia == ib) return;
+  // the derived operand must stay inside ITS documented domain: it is derived from the operand with the narrower one
+  if ((pl->b[ia].fill == F_I64 || pl->b[ia].fill == F_DBLINT) && pl->b[ia].fill == pl->b[ib].fill && pl->b[ia].fillarg > pl->b[ib].fillarg) {
+    const int tmp = ia;
+    ia = ib;
+    ib = tmp;
+  }
+  const bufspec_t *A = &pl->b[ia], *B = &pl->b[ib];
+  if (A->fill != B->fill || (A->fillarg != B->fillarg && A->fill != F_I64 && A->fill != F_DBLINT) || A->any_finite != B->any_finite || A->fill == F_C120 || A->fill == F_NONE || A->fill == F_RATIO) return;
+  if (A->live_limbs || A->live_bytes1 || B->live_limbs || B->live_bytes1) return;  // (buffers whose tail is output-only hold pre-fill there, not data)
+  const unsigned kind = (unsigned)((t >> 8) % 12);
+  const int dbl = A->fill == F_DBL || A->fill == F_DBLINT;
+  uint64_t nl = 1;
+  if (A->is_zvec != B->is_zvec) return;
+  if (A->is_zvec) {
+    if (A->n != B->n) return;
+    nl = A->size < B->size ? A->size : B->size;
+  } else if (A->bytes != B->bytes || A->bytes < 16)
+    return;
+  for (uint64_t l = 0; l < nl; l++) {
+    uint64_t* a = A->is_zvec ? (uint64_t*)zvec_limb(&z[ia], l) : p[ia];
+    uint64_t* b = B->is_zvec ? (uint64_t*)zvec_limb(&z[ib], l) : p[ib];
+    const uint64_t n = A->is_zvec ? A->n : A->bytes / 8;
+    const uint64_t blk = (!A->is_zvec && N && n >= N && n % N == 0) ? N : n;  // raw buffers of several polynomials: per polynomial
+    for (uint64_t i = 0; i < n; i++) {
+      const uint64_t j = i % blk, base = i - j;
+      uint64_t v;
+      switch (kind / 2) {
+        case 0: v = a[i]; break;                                                                   // b = a
+        case 1: v = dbl ? a[i] ^ (1ull << 63) : 0 - a[i]; break;                                   // b = -a
+        case 2: {                                                                                  // adjoint
+          const uint64_t src = a[base + (j ? blk - j : 0)];
+          v = j ? (dbl ? src ^ (1ull << 63) : 0 - src) : src;
+          break;
+        }
+        case 3: v = (dbl && (j >= blk / 2)) ? a[i] ^ (1ull << 63) : a[i]; break;                   // conj, split layout (re | im)
+        case 4: v = (j & 1) ? (dbl ? a[i] ^ (1ull << 63) : 0 - a[i]) : a[i]; break;                 // conj, interleaved layout / alternating signs
+        default: v = dbl ? (((j >> 2) & 1) ? a[i] ^ (1ull << 63) : a[i]) : a[base + blk - 1 - j];  // conj, 4-block layout / reversed
+      }
+      if ((kind & 1) && (mix64(t + i) & 3) == 0) {  // nearly, not exactly (integers stay inside their domain)
+        const uint64_t w = v ^ (1 + (mix64(t + i) >> 60));
+        if (dbl || A->fill != F_I64 || A->fillarg >= 63) v = w;
+        else {
+          const int64_t mx = (int64_t)(((uint64_t)1 << A->fillarg) - 1);
+          if ((int64_t)w <= mx && (int64_t)w >= -mx) v = w;
+        }
+      }
+      if (A->fill == F_U32A) v &= 0xFFFFFFFFu;
+      b[i] = v;
+    }
+  }
+}
 __thread int op_exec_repeat;
 uint64_t ops_readonly_input_calls;  // input buffers that were write-protected during a call (process-wide)
 static __thread int op_exec_oom;  // every allocation request made inside the call fails (build tag "oom")
@@ -337,6 +404,7 @@ void op_exec(const opdef_t* o, const env_t* env, uint64_t seed, int prefill, uns
         VALGRIND_MAKE_MEM_UNDEFINED(p[i], nb);
     }
   }
+  if (!op_exec_data_salt) relate_inputs(&pl, p, z, seed, env->N);
   if (monitors & MON_SNAPSHOT)
     for (int i = 0; i < pl.nb; i++)
       if (pl.b[i].role == R_IN) {
@@ -685,7 +753,7 @@ IPB(ipb_auto, vec_znx_big_automorphism(M, pl->s[0] | 1, p[0], rs, p[0], as))
 static void plan_inplace_idft(opplan_t* pl, rng_t* r, const env_t* e) {
   uint64_t rs = rsz(r, 3), as = rsz(r, 3);
   pl->u[0] = rs; pl->u[1] = as;
-  { int xi = B_RAW(pl, R_INOUT, F_DBLINT, 40, bytes_of_vec_znx_dft(e->fft64, rs > as ? rs : as), 8); if (rs > as) pl->b[xi].live_bytes1 = as * e->N * 8 + 1; }
+  { int xi = B_RAW(pl, R_INOUT, F_DBLINT, (rng_u64(r) & 3) == 0 ? 58 : 40, bytes_of_vec_znx_dft(e->fft64, rs > as ? rs : as), 8); if (rs > as) pl->b[xi].live_bytes1 = as * e->N * 8 + 1; }
   B_RAW(pl, R_SCRATCH, F_NONE, 0, vec_znx_idft_tmp_bytes(e->fft64), 8);
   SHAPE(pl, "%s", szc(rs, as));
 }
@@ -758,7 +826,10 @@ static void plan_idft_x(opplan_t* pl, rng_t* r, const env_t* e, int ntt, int tmp
   pl->u[0] = rs;
   pl->u[1] = as;
   B_RAW(pl, R_OUT, F_NONE, 0, big_bytes(e, ntt, rs), ntt ? 16 : 8);
-  B_RAW(pl, tmp_a ? R_INTMP : R_IN, ntt ? F_U64 : F_DBLINT, 40, dft_bytes(e, ntt, as), ntt ? 32 : 8);  // tmp_a: the source is used as scratch
+  // (FFT64 spectra: mostly 40-bit integers, one plan in four each 52 and 58 bits - inverse transforms whose coefficients exceed 2^53,
+  // as after a product near the budget)
+  const unsigned sbits = (rng_u64(r) & 3) == 0 ? 58 : ((rng_u64(r) & 3) == 1 ? 52 : 40);
+  B_RAW(pl, tmp_a ? R_INTMP : R_IN, ntt ? F_U64 : F_DBLINT, ntt ? 0 : sbits, dft_bytes(e, ntt, as), ntt ? 32 : 8);  // tmp_a: the source is used as scratch
   if (!tmp_a) B_RAW(pl, R_SCRATCH, F_NONE, 0, vec_znx_idft_tmp_bytes(ntt ? e->ntt120 : e->fft64), 8);
   SHAPE(pl, "%s", szc(rs, as));
 }
